@@ -58,6 +58,8 @@ class C01(Prop):
     lean_module = "RxModel.Props.C01"
     extra_modules = ("RxModel.Props.C01C", "RxModel.Props.C01M")
     design_ref = "DESIGN.md §6 C01"
+    # translator tie (DESIGN II.7): the closure observer behind `subscribe(|v| ..)` — one call per item, none per terminal
+    tie_modules = {"RxModel.GenTie.SubscribeItem": [], "RxModel.GenTie.RcObserver": []}
     rule = ("random pipelines (depth<=5, <=3 hot subjects, cold sources incl. create with malformed scripts, "
             "all single-input variants, start_with, the 8 two-input combinators; local and _threads) x event "
             "scripts with post-terminal events and repeated terminals; plus every operator variant at depth 1 "
